@@ -77,7 +77,11 @@ def replay(job):
         before = proj.snapshot(with_mtime=True)
         # a fifth of the runs with -v / -vv (with -vv `update` prints the diff like --dry and then goes on)
         args = ["update"] + ([["-v"], ["-vv"]][seed % 2] if seed % 5 == 0 else []) + ["--no-fetch"] + (["--dry"] if case["dry"] else [])
-        if fault["kind"] == "gate":
+        if fault["kind"] == "gate" and case["commit"] and seed % 2 == 1:
+            # the new version is rejected for another reason: under --ignore-vcs-tag it is computed from the config value alone and already exists as a tag
+            fv.set(tags=["v202103.1002-beta"], status="", remote="", branches="")
+            args += ["--ignore-vcs-tag", "--date", "2021-03-09"]
+        elif fault["kind"] == "gate":
             args += ["--set-version", old]
         else:
             args += ["--date", "2021-03-09"]
